@@ -20,11 +20,15 @@
      left anyway; type declarations (`|` continuation lines), `use` lists and patterns never consult it.
      C14_breaks_safe_same_parse_partial / C14_same_parse_as_source_partial are stated for ANY function of (token words,
      those answers).  That the real parser is such a function is checked by checks/C14.py (re-layout test), not proved.
+   * The comment clause ("contains every comment of the input in the same order") is proved over the trivia maps of the
+     pre-parser model (Lexer/Model.v `preparse`, the transcription of preparser.rs used by C13): C14_trivia_attached_in_order
+     (for EVERY token list) and C14_comments_emitted_once_in_order_partial (for a green tree whose leaves carry those maps).
    * Theorems named `_partial` cover the fragment / rest on a hypothesis that is validated by the correspondence check.
    * The defects the faithful model used to reproduce (`_refuted` theorems of the previous version) are repaired in
      cst_print.rs; their witnesses are now positive Examples at the end of this file. *)
-From Coq Require Import String Ascii List Bool Arith.
-From Mimium Require Import Fmt.Model Fmt.Render Fmt.Breaks Fmt.Emits Fmt.Witness Fmt.Witness2.
+From Coq Require Import String Ascii List Bool Arith NArith Sorted.
+From Mimium Require Import Tables.LexerTables Lexer.Model Lexer.PreLemmas.
+From Mimium Require Import Fmt.Model Fmt.Render Fmt.Breaks Fmt.Emits Fmt.Witness Fmt.Witness2 Fmt.Attach Fmt.Comments Fmt.Witness3.
 Import ListNotations.
 Local Open Scope string_scope.
 Local Open Scope list_scope.
@@ -111,6 +115,35 @@ Theorem C14_idempotent_partial :
     option_map (fun c => pick (doc_of ind c)) (parse s) = Some o ->
     option_map (fun c => pick (doc_of ind c)) (parse o) = Some o.
 Proof. exact idempotent_partial. Qed.
+
+(* ---- the comment clause ------------------------------------------------------------------------------------------------ *)
+(* emit_token_with_trivia prints, for the k-th syntax token, its leading trivia, the token, its trailing trivia (both looked up
+   in the maps of the pre-parser).  Taken over the syntax tokens in order, these lookups yield exactly the trivia tokens of the
+   input that the pre-parser does not drop (finding C13/F5), each ONCE and in SOURCE ORDER -- for every token list. *)
+Theorem C14_trivia_attached_in_order : forall (toks : list Token),
+  attached_seq (preparse toks) = survivors toks.
+Proof. exact attached_in_order. Qed.
+
+Theorem C14_trivia_attached_sorted : forall (toks : list Token),
+  StronglySorted N.lt (attached_seq (preparse toks)).
+Proof. exact attached_sorted. Qed.
+
+(* Hence, for a green tree whose leaves are the syntax tokens in order, each with the trivia of those maps (`decorated`: this
+   is what parse_cst + the per-token lookups give the printer, C13_cst_leaves), and a document that emits every word of the
+   tree (emits_all), the comment words of the document -- so, by C14_any_layout_same_tokens, of every rendering -- are the
+   comments of the input that are not dropped, once each, in source order.  The two lexical hypotheses say that a comment
+   token reads `//..` or `/*..` and a syntax token does not. *)
+Theorem C14_comments_emitted_once_in_order_partial :
+  forall (txt : N -> string) (toks : list Token) (ind : nat) (c : cst),
+  decorated txt toks c -> emits_all ind c -> comment_texts_ok txt toks -> token_texts_ok c ->
+  comments_in (dwords (doc_of ind c)) = trivia_words (map (triv_of txt toks) (survivors toks)).
+Proof. exact comments_emitted_once_in_order. Qed.
+
+(* the hypotheses are satisfiable: "a // c" newline "b" with the maps computed by the pre-parser model *)
+Example C14_ex_comments_hypotheses :
+  decorated w3_txt w3_toks w3_cst /\ emits_all 4 w3_cst /\ comment_texts_ok w3_txt w3_toks /\ token_texts_ok w3_cst /\
+  survivors w3_toks = [1%N; 2%N; 3%N] /\ comments_in (dwords (doc_of 4 w3_cst)) = ["// c"].
+Proof. exact (conj w3_decorated (conj w3_emits_all (conj w3_comment_texts_ok (conj w3_token_texts_ok (conj w3_survivors w3_comments))))). Qed.
 
 (* ---- former findings (repaired in cst_print.rs; the model follows the repaired printer) ------------------------------ *)
 (* Each example is the witness of a defect that Props/C14.v used to refute; the sources are regression inputs of
